@@ -6,7 +6,7 @@
    the theorems below cover the named fragment; re-export chains are covered by the
    differential against the generator's ground truth, where two deviations are known findings. *)
 From Coq Require Import ZArith.
-From FV Require Import Base.Str Shared.Resolve C05.Proofs.
+From FV Require Import Base.Str Shared.Resolve C05.Proofs C05.Inherit.
 
 (* for ALL programs, fuels and start scopes (no well-formedness at all): whatever comes back
    through USE association is a child of the used module that is public there *)
@@ -72,6 +72,22 @@ Definition hidden : prog := PR
 Theorem C05_refuted_private_reexport : resolve hidden 2 X = FSome (0, Some (EN X 0 7), ViaUse M1).
 Proof. vm_compute. reflexivity. Qed.
 Print Assumptions C05_refuted_private_reexport.
+
+(* `%` chains: the component found for `obj%name` is the declaration in the nearest type up the EXTENDS chain that declares the
+   name, for every type table (cyclic ones included: the walk is fuelled) and every name *)
+Theorem inherited_component_is_nearest_declaration : forall fuel ts i name, lookup_member fuel ts i name = nearest fuel ts i name.
+Proof. exact member_lookup_is_nearest. Qed.
+Print Assumptions inherited_component_is_nearest_declaration.
+
+Theorem member_declared_by_an_ancestor : forall fuel ts i e, In e (members fuel ts i) ->
+  exists j t, nth_error ts j = Some t /\ In e (t_children t).
+Proof. exact member_is_declared_up_the_chain. Qed.
+Print Assumptions member_declared_by_an_ancestor.
+
+Theorem own_component_hides_inherited : forall f ts i t e, nth_error ts i = Some t -> In e (members (S f) ts i) ->
+  smem (e_name e) (map e_name (t_children t)) = true -> In e (t_children t).
+Proof. exact own_member_hides_inherited. Qed.
+Print Assumptions own_component_hides_inherited.
 
 Example C05_nonvacuous :
   let p := PR [ SCP M1 [EN X 0 7; EN A (-1) 8] 0 [] None;
